@@ -76,6 +76,14 @@ pub fn check_path(c: &PathCase, obs: &mut Obs) -> Result<(), String> {
     let want = m::parse(s);
     let got = PkgPath::new(s);
     obs.verdicts += 1;
+    // the FromStr entry point is the same function
+    {
+        use std::str::FromStr;
+        let via = PkgPath::from_str(s);
+        if via.is_ok() != got.is_ok() || (via.is_ok() && via.as_ref().ok() != got.as_ref().ok()) {
+            return Err(format!("PkgPath::from_str({:?}) = {:?} but PkgPath::new = {:?}", s, via, got));
+        }
+    }
     match (&got, &want) {
         (Err(_), None) => {
             obs.class("rejected");
@@ -93,6 +101,13 @@ pub fn check_path(c: &PathCase, obs: &mut Obs) -> Result<(), String> {
             let full = PkgPath::new(&format!("../../{}/{}", cat, pkg)).map_err(|e| format!("full spelling rejected: {}", e))?;
             if &short != p || &full != p || short != full {
                 return Err(format!("PkgPath values built from {:?}, the short and the full spelling are not equal", s));
+            }
+            // right after an accepted input its invalid neighbours are still rejected (nothing is
+            // remembered from the previous call)
+            for bad in [format!("../{}", s), format!("../../x/{}/{}", cat, pkg), format!("{}/{}/{}", cat, cat, pkg), format!("../../../{}/{}", cat, pkg), format!("{}/{}/..", cat, pkg)] {
+                if m::parse(&bad).is_none() && PkgPath::new(&bad).is_ok() {
+                    return Err(format!("PkgPath::new({:?}) accepted right after {:?} was parsed", bad, s));
+                }
             }
             // re-parsing either accessor's output gives an equal value
             for acc in [p.as_path(), p.as_full_path()] {
@@ -169,6 +184,13 @@ pub fn check_dep(c: &DepCase, obs: &mut Obs) -> Result<(), String> {
     let parts: Vec<&str> = s.split(':').collect();
     let got = Depend::new(s);
     obs.verdicts += 1;
+    {
+        use std::str::FromStr;
+        let via = Depend::from_str(s);
+        if via.is_ok() != got.is_ok() || (via.is_ok() && via.as_ref().ok() != got.as_ref().ok()) {
+            return Err(format!("Depend::from_str({:?}) and Depend::new disagree", s));
+        }
+    }
     let expect = if parts.len() == 2 {
         match (Pattern::new(parts[0]), PkgPath::new(parts[1])) {
             (Ok(p), Ok(q)) => Some((p, q)),
